@@ -22,8 +22,10 @@ m = dict(
     hooks=dict(guard="ZOPE_INTERFACE_VERIF", enable="no hooks are needed: all instrumentation is external (overlay copy of /repo/src built per run, subclassing, gc introspection)",
                baseline_off_cmd="cd /repo && /venv/bin/python -m pytest -ra -q -p no:cacheprovider --timeout=900 --continue-on-collection-errors",
                source_commits=[], add_only=True),
-    engines=[dict(name="lean4+correspondence", path="lean/ + harness/", serves_properties=sorted(CHECKS),
-                  kind_free_text="Lean 4 theorems about a hand-written executable model; model tied to /repo on every run by a line-protocol correspondence against the real implementation (C and PURE_PYTHON) plus an independent oracle used to search for failing inputs")],
+    engines=[dict(name="lean4+correspondence", path="lean/ + harness/", serves_properties=sorted(p for p in CHECKS if CHECKS[p]["engine"] == "lean4+correspondence"),
+                  kind_free_text="Lean 4 theorems about a hand-written executable model; model tied to /repo on every run by a line-protocol correspondence against the real implementation (C and PURE_PYTHON) plus an independent oracle used to search for failing inputs"),
+             dict(name="lean4+translation", path="lean/ZI/Own*.lean, lean/ZI/Detach.lean, tools/cextract.py, harness/layers/reentry.py", serves_properties=sorted(p for p in CHECKS if CHECKS[p]["engine"] == "lean4+translation"),
+                  kind_free_text="Lean 4 soundness theorems about two static checks over small IRs; the IR terms are regenerated from /repo's C and Python sources on every run by a fail-closed translator and the obligations `check prog = true` are decided by Lean; a re-entrancy injection harness on the real code searches for failing schedules")],
     checks=[CHECKS[p] for p in props if p in CHECKS],
     notes="See DESIGN.md. Exit codes: 0 held, 1 violation (VIOLATION line), 2 infrastructure failure.",
     not_applicable=[dict(property_id=p, reason=NOT_YET.get(p, "check not built yet in this tree; design in DESIGN.md section 6")) for p in props if p not in CHECKS],
